@@ -18,20 +18,54 @@
 static int vf_failed;
 #define __CPROVER_assume(c) do { if(!(c)) { printf("VF-REPLAY: assumption not met: %s\n", #c); exit(77); } } while(0)
 #define __CPROVER_assert(c, msg) do { if(!(c)) { printf("VF-REPLAY: FAILED %s (%s:%d)\n", msg, __FILE__, __LINE__); vf_failed = 1; } } while(0)
-#define VF_SCALAR(type, name) type name = (type)(VF_VAL_##name)
-#define VF_BYTES(name, N) unsigned char name[N]; memcpy(name, VF_VAL_##name, N)
+/* inputs come from the text file named by $VF_REPLAY_INPUTS: "name hex" / "name bytes hex" */
+static int vf_lookup(const char *name, char *out, size_t outsz) {
+	const char *path = getenv("VF_REPLAY_INPUTS");
+	FILE *f = path ? fopen(path, "r") : 0;
+	char n[128], kind[80];
+	if(!f) return 0;
+	while(fscanf(f, "%127s %79s", n, kind) == 2) {
+		if(strcmp(kind, "bytes") == 0) { if(fscanf(f, "%*[ ]%65535[0-9a-fA-F]", out) != 1) out[0] = 0; }
+		else { strncpy(out, kind, outsz - 1); out[outsz - 1] = 0; }
+		if(strcmp(n, name) == 0) { fclose(f); return 1; }
+	}
+	fclose(f);
+	return 0;
+}
+static unsigned __int128 vf_input_scalar(const char *name) {
+	static char buf[65536];
+	unsigned __int128 v = 0;
+	const char *p;
+	if(!vf_lookup(name, buf, sizeof(buf))) { printf("VF-REPLAY: input %s missing, using 0\n", name); return 0; }
+	for(p = buf; *p; p++) { int c = *p; int d = c >= 'a' ? c - 'a' + 10 : c >= 'A' ? c - 'A' + 10 : c - '0'; v = (v << 4) | (unsigned)d; }
+	return v;
+}
+static void vf_input_bytes(const char *name, unsigned char *dst, size_t n) {
+	static char buf[65536];
+	size_t i;
+	memset(dst, 0, n);
+	if(!vf_lookup(name, buf, sizeof(buf))) { printf("VF-REPLAY: input %s missing, using zeros\n", name); return; }
+	for(i = 0; i < n && buf[2 * i] && buf[2 * i + 1]; i++) { unsigned x; sscanf(buf + 2 * i, "%2x", &x); dst[i] = (unsigned char)x; }
+}
+#define VF_SCALAR(type, name) type name = (type)vf_input_scalar(#name)
+#define VF_BYTES(name, N) unsigned char name[N]; vf_input_bytes(#name, name, N)
 #define VF_CANARY() do { } while(0)
-#define VF_MAIN(fn) int main(void) { fn(); if(vf_failed) { printf("VF-REPLAY: reproduced\n"); return 1; } printf("VF-REPLAY: not reproduced\n"); return 0; }
+#define VF_MAIN(fn)
+/* the driver compiles with -DVF_ENTRY=<entry function>; put VF_NATIVE_MAIN at the end of the harness file */
+#define VF_NATIVE_MAIN int main(void) { VF_ENTRY(); if(vf_failed) { printf("VF-REPLAY: reproduced\n"); return 1; } printf("VF-REPLAY: not reproduced\n"); return 0; }
 #define VF_IS_NATIVE 1
 #else
-#define VF_SCALAR(type, name) type nondet_vf_##name(void); type name = nondet_vf_##name()
-#define VF_BYTES(name, N) struct vf_bytes_##name { unsigned char b[N]; }; \
-	struct vf_bytes_##name nondet_vf_##name(void); \
-	struct vf_bytes_##name name##_s = nondet_vf_##name(); \
+#define VF_CAT_(a, b, c) a##b##_##c
+#define VF_CAT(a, b, c) VF_CAT_(a, b, c)
+#define VF_SCALAR(type, name) type VF_CAT(nondet_vf_, name, __LINE__)(void); type name = VF_CAT(nondet_vf_, name, __LINE__)()
+#define VF_BYTES(name, N) struct VF_CAT(vf_bytes_, name, __LINE__) { unsigned char b[N]; }; \
+	struct VF_CAT(vf_bytes_, name, __LINE__) VF_CAT(nondet_vf_, name, __LINE__)(void); \
+	struct VF_CAT(vf_bytes_, name, __LINE__) name##_s = VF_CAT(nondet_vf_, name, __LINE__)(); \
 	unsigned char *name = name##_s.b
 /* must be reported FAILURE by CBMC: the post-state of the call is reachable */
 #define VF_CANARY() __CPROVER_assert(0, "vf_canary_reachable")
 #define VF_MAIN(fn)
+#define VF_NATIVE_MAIN
 #define VF_IS_NATIVE 0
 #endif
 
